@@ -834,6 +834,8 @@ def formats(ctx, res, binary=None, env=None, sanitizer=False):
         mal.append(Case('format-huge-width', FMT_JOURNAL, ['reg', '--format', t] + NOW, info=dict(t=t, expect='error' if wl else None)))
     if sanitizer:
         mal = mal[::3]
+    elif ctx.tier != 'thorough':
+        mal = mal[ctx.seed % 2::2]          # quick tier: half of the malformed-directive runs, alternating with the seed
     run_cases(ctx, cases + mal, 'fmt', binary, env)
     model = lib.run_model('C11', lines) if not sanitizer else [''] * len(cases)
     for case, ml in zip(cases, model):
@@ -938,7 +940,7 @@ def function_arguments(ctx, res, binary=None, env=None, sanitizer=False):
                 forms.append((f, '%s(%s, %s)' % (f, a, n), (int(n),)))
                 forms.append((f, '%s(%s, %s, %s)' % (f, a, n, n), (int(n), int(n))))
                 forms.append((f, '%s(%s, 5, %s)' % (f, a, n), (5, int(n))))
-    want = ctx.scale(2000, len(forms))
+    want = ctx.scale(1500, len(forms))
     pick = forms if want >= len(forms) else rng.sample(forms, want)
     # justify: all its forms, but while the width is not bounded in the source only one of the
     # hanging ones (each costs the whole time limit)
@@ -1504,7 +1506,7 @@ def run(ctx, light=False):
               ('periods', lambda: periods(ctx, res)), ('truncated', lambda: truncated(ctx, res)),
               ('long_tokens', lambda: long_tokens(ctx, res)), ('formats', lambda: formats(ctx, res)), ('aliases', lambda: aliases(ctx, res)), ('early_options', lambda: early_options(ctx, res)),
               ('function_arguments', lambda: function_arguments(ctx, res)),
-              ('mutation', lambda: mutation(ctx, res, ctx.scale(8000, 16000)))]
+              ('mutation', lambda: mutation(ctx, res, ctx.scale(6000, 16000)))]
     if ctx.tier == 'thorough' and not light:
         phases.append(('sanitizer', lambda: sanitizer_tier(ctx, res, sites)))
     res.extra['phase_wall_s'] = {}
